@@ -1066,6 +1066,11 @@ fn norm_vi(s: &str) -> String {
     }
 }
 
+/// Error class for coverage counters: the message up to its first digit (keeps the key set small).
+fn err_class(e: &str) -> String {
+    e.chars().take_while(|c| !c.is_ascii_digit()).take(64).collect::<String>().trim_end().to_string()
+}
+
 fn outcome_str(o: &Result<Outcome, String>) -> String {
     match o {
         Err(p) => format!("panic: {p}"),
@@ -1384,14 +1389,14 @@ fn part_b(m: &mut Monitor, rng: &mut Rng, w: &World) {
         (Err(a), Err(b)) => {
             if a == b {
                 m.count(&format!("{name}:err_equal"));
-                m.count(&format!("err_msg[{name}] {}", a.chars().take(60).collect::<String>()));
+                m.count(&format!("err_msg[{name}] {}", err_class(a)));
             } else if validation_flaw && a.contains("invalid, closed or disabled market") {
                 m.count(&format!("{name}:program_only_status_validation(documented)"));
             } else {
                 // both report failure; the wording differs (e.g. burn > supply: program "not enough market
                 // tokens to burn", SDK "overflow") — same result class, recorded
                 m.count(&format!("{name}:err_both_different_message"));
-                m.count(&format!("err_pair[{name}] program='{}' sdk='{}'", a.chars().take(70).collect::<String>(), b.chars().take(70).collect::<String>()));
+                m.count(&format!("err_pair[{name}] program='{}' sdk='{}'", err_class(a), err_class(b)));
             }
         }
         (Err(a), Ok(_)) => {
